@@ -559,6 +559,47 @@ def extra_scenarios(ctx, rng):
                     ctx.oracle_failure("C:%s:isdisjoint:leak-on-failing-comparison" % kind, "OO%s.isdisjoint(list) with comparison #%d raising: reference counts moved by %r" % (
                         kind, failing, [x - y for x, y in zip(now, base)]), {"kind": kind, "failing": failing})
                 del a
+    # ---------------- (E) the in-place operators and update() with a list operand whose elements' comparisons fail
+    #                      part-way: every element / key keeps exactly one reference per slot that holds it
+    nE = 0
+    for kind in ("Set", "TreeSet"):
+        cls = f.cls(kind, "C")
+        for opname in ("isub", "ior", "iand", "ixor", "update"):
+            for failing in range(0, 9):
+                pk = [RK(i) for i in range(0, 12, 2)]
+                other = [RK(j) for j in (4, 5, 0, 11, 8, 7)]
+                with sizes([f.cls("BTree", "C"), f.cls("TreeSet", "C")], 2, 2):
+                    a = cls(pk)
+                    objs = pk + other
+                    base = [sys.getrefcount(objs[ix]) for ix in range(len(objs))]
+                    held0 = [sum(1 for x in a if x is objs[ix]) for ix in range(len(objs))]
+                    RK.fail = [failing, 0] if failing else [None, 0]
+                    try:
+                        if opname == "isub":
+                            a -= other
+                        elif opname == "ior":
+                            a |= other
+                        elif opname == "iand":
+                            a &= other
+                        elif opname == "ixor":
+                            a ^= other
+                        else:
+                            a.update(other)
+                    except Boom:
+                        pass
+                    finally:
+                        RK.fail = [None, 0]
+                    held1 = [sum(1 for x in a if x is objs[ix]) for ix in range(len(objs))]
+                    now = [sys.getrefcount(objs[ix]) for ix in range(len(objs))]
+                    nE += 1
+                    ctx.count(("inplace-failing", kind, opname, failing))
+                    moved = [(n - b) - (h1 - h0) for n, b, h0, h1 in zip(now, base, held0, held1)]
+                    if any(moved):
+                        ctx.oracle_failure("C:%s:%s:refcount-after-failing-comparison" % (kind, opname),
+                                           "OO%s %s list with comparison #%d raising: reference counts differ from the slots holding each object by %r" % (kind, opname, failing, moved),
+                                           {"kind": kind, "op": opname, "failing": failing})
+                    del a
+    ctx.cov["inplace_operator_cases_with_failing_comparisons"] = nE
     # byValue(): the (value, key) pairs it returns are the only new references
     for kind in ("Bucket", "BTree"):
         cls = f.cls(kind, "C")
